@@ -108,6 +108,7 @@ pub mod p04;
 pub mod p05;
 pub mod p12;
 pub mod p06;
+pub mod p11;
 pub mod p13;
 pub mod p17;
 pub mod p18;
